@@ -75,7 +75,8 @@ def upwind_case(rng, wd=None):
         # (default tke = 1): z0 = zm exp(-cm cl |U| sqrt(tke) / ustar^2)  with z0 in [0.02, 0.2]
         ustar = float(np.sqrt(0.0856 * 0.845 * speed / np.log(zm / z0)))
     return dict(nx=nx, ny=ny, xmax=nx * dx, ymax=ny * dx, nz=int(rng.choice([8, 12])), zm=zm,
-                ref_lat=float(rng.uniform(-60, 60)), ref_lon=float(rng.uniform(-180, 180)),
+                ref_lat=float(rng.choice([rng.uniform(-60, 60), 0.0, rng.uniform(-0.002, 0.002)], p=[0.7, 0.2, 0.1])),
+                ref_lon=float(rng.choice([rng.uniform(-180, 180), 0.0, rng.uniform(-0.003, 0.003)], p=[0.7, 0.2, 0.1])),
                 speed=speed, wd=float(rng.uniform(0, 360)) if wd is None else float(wd),
                 mol=float(rng.choice([-30.0, -100.0, 1e9, 150.0, 60.0])), ustar=ustar,
                 z0=z0, forcing=forcing, closure=closure, halo=None)
